@@ -94,3 +94,1474 @@ theorem fbLoop_shift (pos0 : Bool) (k : Nat) (hk : 0 < k) (n : Nat) :
         · simp only [tokenAt_shift]
 
 end Jomini.TextReader
+
+namespace Jomini.TextReader
+open Jomini Jomini.TextReader.Spec
+
+/-! ### decomposition of a window into the part the scan skips and the part it stops at -/
+
+/-- `Skips pos0 pre i bom bom'`: scanning in top mode at offset `i`, `next_opt_fallback` passes over all of
+`pre` (blanks, complete comments, a BOM at the very start) and is back in top mode with BOM state `bom'`. -/
+inductive Skips (pos0 : Bool) : Bytes → Nat → Bom → Bom → Prop
+  | nil (i : Nat) (bom : Bom) : Skips pos0 [] i bom bom
+  | blank {c : UInt8} {pre : Bytes} {i : Nat} {bom bom' : Bom} :
+      isBlank c = true → Skips pos0 pre (i + 1) bom bom' → Skips pos0 (c :: pre) i bom bom'
+  | comment {a pre : Bytes} {i : Nat} {bom bom' : Bom} :
+      (∀ x ∈ a, (x == 10) = false) → Skips pos0 pre (i + a.length + 2) bom bom' →
+      Skips pos0 (35 :: (a ++ 10 :: pre)) i bom bom'
+  | bom {pre : Bytes} {bom' : Bom} :
+      pos0 = true → Skips pos0 pre 3 .present bom' →
+      Skips pos0 (0xef :: 0xbb :: 0xbf :: pre) 0 .unknown bom'
+
+theorem fbLoop_comment_run (pos0 : Bool) (a : Bytes) (ha : ∀ x ∈ a, (x == 10) = false) (x : Bytes) (s i : Nat) (bom : Bom) :
+    fbLoop pos0 (a ++ 10 :: x) (.comment s) i bom = fbLoop pos0 x .top (i + a.length + 1) bom := by
+  induction a generalizing i with
+  | nil => simp [fbLoop_comment_cons]
+  | cons c a ih =>
+    have hc : (c == 10) = false := ha c (by simp)
+    simp only [List.cons_append, fbLoop_comment_cons, hc]
+    rw [ih (fun x hx => ha x (by simp [hx]))]
+    simp; congr 1; omega
+
+theorem fbLoop_comment_open (pos0 : Bool) (a : Bytes) (ha : ∀ x ∈ a, (x == 10) = false) (s i : Nat) (bom : Bom) :
+    fbLoop pos0 a (.comment s) i bom = (bom, .refill .none (i + a.length - s) 0) := by
+  induction a generalizing i with
+  | nil => simp [fbLoop]
+  | cons c a ih =>
+    have hc : (c == 10) = false := ha c (by simp)
+    simp only [fbLoop_comment_cons, hc]
+    rw [ih (fun x hx => ha x (by simp [hx]))]
+    simp; congr 1; omega
+
+theorem Skips.fbLoop {pos0 : Bool} {pre : Bytes} {i : Nat} {bom bom' : Bom} (h : Skips pos0 pre i bom bom') (x : Bytes) :
+    fbLoop pos0 (pre ++ x) .top i bom = fbLoop pos0 x .top (i + pre.length) bom' := by
+  induction h with
+  | nil i bom => simp
+  | blank hb _ ih => simp only [List.cons_append, fbLoop_top_cons, hb, if_true, List.length_cons]; rw [ih]; congr 1; omega
+  | @comment a pre i bom bom' ha _ ih =>
+    have h35 : isBlank 35 = false := by decide
+    simp only [List.cons_append, fbLoop_top_cons, h35]
+    simp only [beq_self_eq_true, if_true, List.append_assoc, List.cons_append, Bool.false_eq_true, if_false]
+    rw [fbLoop_comment_run pos0 a ha, show i + 1 + a.length + 1 = i + a.length + 2 by omega, ih]
+    simp; congr 1; omega
+  | @bom pre bom' hp _ ih =>
+    have hb : isBlank 0xef = false := by decide
+    subst hp
+    simp only [List.cons_append, fbLoop_top_cons, hb]
+    simp only [Bool.false_eq_true, if_false]
+    rw [show ((0xef : UInt8) == 35) = false by decide]
+    simp only [Bool.false_eq_true, if_false, beq_self_eq_true, Bool.and_self, if_true, bne_self_eq_false, Bool.not_true, Bool.or_self]
+    rw [ih]; simp; congr 1; omega
+
+end Jomini.TextReader
+
+namespace Jomini.TextReader
+open Jomini Jomini.TextReader.Spec
+
+theorem split_newline (l : Bytes) :
+    (∀ x ∈ l, (x == 10) = false) ∨ ∃ a r, l = a ++ 10 :: r ∧ ∀ x ∈ a, (x == 10) = false := by
+  induction l with
+  | nil => left; simp
+  | cons c l ih =>
+    by_cases hc : (c == 10) = true
+    · right; refine ⟨[], l, ?_, by simp⟩
+      have : c = 10 := by simpa using hc
+      simp [this]
+    · rcases ih with h | ⟨a, r, rfl, ha⟩
+      · left; intro x hx; simp at hx; rcases hx with rfl | hx
+        · simpa using hc
+        · exact h x hx
+      · right; refine ⟨c :: a, r, by simp, ?_⟩
+        intro x hx; simp at hx; rcases hx with rfl | hx
+        · simpa using hc
+        · exact ha x hx
+
+/-- the BOM arm inspects the window: first byte `0xEF`, BOM state unknown, scan offset 0, stream position 0 -/
+def BomCheck (pos0 : Bool) (c : UInt8) (j : Nat) (bom : Bom) : Prop :=
+  (c == 0xef) = true ∧ bom = .unknown ∧ j = 0 ∧ pos0 = true
+
+instance (pos0 : Bool) (c : UInt8) (j : Nat) (bom : Bom) : Decidable (BomCheck pos0 c j bom) := by
+  unfold BomCheck; infer_instance
+
+/-- what the scan stops at, after the skipped prefix -/
+inductive Tail (pos0 : Bool) (j : Nat) (bom : Bom) : Bytes → Prop
+  | empty : Tail pos0 j bom []
+  | comment (a : Bytes) : (∀ x ∈ a, (x == 10) = false) → Tail pos0 j bom (35 :: a)
+  | token (c : UInt8) (r : Bytes) : isBlank c = false → (c == 35) = false → ¬BomCheck pos0 c j bom → Tail pos0 j bom (c :: r)
+  | bomShort (r : Bytes) : BomCheck pos0 0xef j bom → r.length < 2 → Tail pos0 j bom (0xef :: r)
+  | bomNo (d e : UInt8) (r : Bytes) : BomCheck pos0 0xef j bom → (d == 0xbb && e == 0xbf) = false →
+      Tail pos0 j bom (0xef :: d :: e :: r)
+
+theorem decompose (pos0 : Bool) (n : Nat) : ∀ (w : Bytes) (i : Nat) (bom : Bom), w.length ≤ n →
+    ∃ pre tail bom', w = pre ++ tail ∧ Skips pos0 pre i bom bom' ∧ Tail pos0 (i + pre.length) bom' tail := by
+  induction n with
+  | zero =>
+    intro w i bom hl
+    have : w = [] := List.eq_nil_of_length_eq_zero (by omega)
+    subst this
+    exact ⟨[], [], bom, rfl, .nil _ _, .empty⟩
+  | succ n ih =>
+    intro w i bom hl
+    cases w with
+    | nil => exact ⟨[], [], bom, rfl, .nil _ _, .empty⟩
+    | cons c rest =>
+      have hr : rest.length ≤ n := by simp at hl; omega
+      by_cases hb : isBlank c = true
+      · obtain ⟨pre, tail, bom', e, hs, ht⟩ := ih rest (i + 1) bom hr
+        refine ⟨c :: pre, tail, bom', by simp [e], .blank hb hs, ?_⟩
+        have : i + (c :: pre).length = i + 1 + pre.length := by simp; omega
+        rw [this]; exact ht
+      by_cases h35 : (c == 35) = true
+      · have hc : c = 35 := by simpa using h35
+        subst hc
+        rcases split_newline rest with ha | ⟨a, r, rfl, ha⟩
+        · exact ⟨[], 35 :: rest, bom, rfl, .nil _ _, .comment rest ha⟩
+        · have hrl : r.length ≤ n := by simp at hr; omega
+          obtain ⟨pre, tail, bom', e, hs, ht⟩ := ih r (i + a.length + 2) bom hrl
+          refine ⟨35 :: (a ++ 10 :: pre), tail, bom', by simp [e], .comment ha hs, ?_⟩
+          have : i + (35 :: (a ++ 10 :: pre)).length = i + a.length + 2 + pre.length := by simp; omega
+          rw [this]; exact ht
+      by_cases hbc : BomCheck pos0 c i bom
+      · obtain ⟨hc, hbom, hi, hp⟩ := hbc
+        have hc' : c = 0xef := by simpa using hc
+        subst hc' hbom hi
+        rcases rest with _ | ⟨d, _ | ⟨e, r⟩⟩
+        · exact ⟨[], [0xef], .unknown, rfl, .nil _ _, .bomShort [] ⟨hc, rfl, rfl, hp⟩ (by simp)⟩
+        · exact ⟨[], [0xef, d], .unknown, rfl, .nil _ _, .bomShort [d] ⟨hc, rfl, rfl, hp⟩ (by simp)⟩
+        · by_cases hbb : (d == 0xbb && e == 0xbf) = true
+          · have hrl : r.length ≤ n := by simp at hr; omega
+            obtain ⟨pre, tail, bom', e', hs, ht⟩ := ih r 3 .present hrl
+            have hd : d = 0xbb := by simp at hbb; exact hbb.1
+            have he : e = 0xbf := by simp at hbb; exact hbb.2
+            subst hd he
+            refine ⟨0xef :: 0xbb :: 0xbf :: pre, tail, bom', by simp [e'], .bom hp hs, ?_⟩
+            have : 0 + (0xef :: 0xbb :: 0xbf :: pre).length = 3 + pre.length := by simp; omega
+            rw [this]; exact ht
+          · exact ⟨[], 0xef :: d :: e :: r, .unknown, rfl, .nil _ _,
+              .bomNo d e r ⟨hc, rfl, rfl, hp⟩ (by simpa using hbb)⟩
+      · exact ⟨[], c :: rest, bom, rfl, .nil _ _, .token c rest (by simpa using hb) (by simpa using h35) hbc⟩
+
+/-- BOM state after the scan has started a token at byte `c` -/
+def bomAfter (c : UInt8) (bom : Bom) : Bom := if c == 0xef && bom == .unknown then .notPresent else bom
+
+theorem fbLoop_token {pos0 : Bool} {c : UInt8} {r : Bytes} {j : Nat} {bom : Bom}
+    (hb : isBlank c = false) (h35 : (c == 35) = false) (hbc : ¬BomCheck pos0 c j bom) :
+    fbLoop pos0 (c :: r) .top j bom = (bomAfter c bom, tokenAt c r j) := by
+  rw [fbLoop_top_cons]
+  simp only [hb, h35, Bool.false_eq_true, if_false, bomAfter]
+  by_cases he : (c == 0xef && bom == .unknown) = true
+  · simp only [he, if_true]
+    have : (j != 0 || !pos0) = true := by
+      simp only [BomCheck] at hbc
+      simp only [Bool.and_eq_true, beq_iff_eq] at he
+      by_cases hj : j = 0
+      · by_cases hp : pos0 = true
+        · exact absurd ⟨by simp [he.1], he.2, hj, hp⟩ hbc
+        · simp at hp; simp [hp]
+      · simp [hj]
+    simp only [this, if_true]
+  · simp only [he, Bool.false_eq_true, if_false]
+
+theorem fbLoop_bomShort {pos0 : Bool} {r : Bytes} {j : Nat} {bom : Bom}
+    (hbc : BomCheck pos0 0xef j bom) (hr : r.length < 2) :
+    fbLoop pos0 (0xef :: r) .top j bom = (bom, .bomFill) := by
+  obtain ⟨_, hbom, hj, hp⟩ := hbc
+  subst hbom hj hp
+  rcases r with _ | ⟨d, _ | ⟨e, r⟩⟩
+  · simp [fbLoop_top_cons, isBlank]
+  · simp [fbLoop_top_cons, isBlank]
+  · simp at hr; omega
+
+theorem fbLoop_bomNo {pos0 : Bool} {d e : UInt8} {r : Bytes} {j : Nat} {bom : Bom}
+    (hbc : BomCheck pos0 0xef j bom) (hn : (d == 0xbb && e == 0xbf) = false) :
+    fbLoop pos0 (0xef :: d :: e :: r) .top j bom = (.notPresent, tokenAt 0xef (d :: e :: r) j) := by
+  obtain ⟨_, hbom, hj, hp⟩ := hbc
+  subst hbom hj hp
+  simp [fbLoop_top_cons, isBlank, hn]
+
+end Jomini.TextReader
+
+namespace Jomini.TextReader
+open Jomini Jomini.TextReader.Spec
+
+/-! ### which arm produced a refill request -/
+
+theorem eq_of_beq {c k : UInt8} (h : (c == k) = true) : c = k := by simpa using h
+
+theorem quoteTok_refill {r : Bytes} {j : Nat} {st : PState} {carry off : Nat} :
+    quoteTok r j = .refill st carry off → st = .quote ∧ quoteScan r 0 = .more carry off := by
+  unfold quoteTok; cases h : quoteScan r 0 <;> simp
+  intro h1 h2 h3; exact ⟨h1.symm, h2, h3⟩
+
+theorem unqTok_refill {c : UInt8} {r : Bytes} {j : Nat} {st : PState} {carry off : Nat} :
+    unqTok c r j = .refill st carry off →
+      st = .unquoted ∧ findIdx isBoundary r 0 = none ∧ carry = r.length + 1 ∧ off = r.length + 1 := by
+  unfold unqTok; cases h : findIdx isBoundary r 0 <;> simp
+  intro h1 h2 h3; exact ⟨h1.symm, h2.symm, h3.symm⟩
+
+theorem opTok2_refill {p q : Op} {r : Bytes} {j : Nat} {st : PState} {carry off : Nat} :
+    opTok2 p q r j = .refill st carry off → st = .none ∧ carry = r.length + 1 ∧ off = 0 := by
+  unfold opTok2; cases r with
+  | nil => simp; intro h1 h2 h3; exact ⟨h1.symm, h2.symm, h3.symm⟩
+  | cons d r => simp only; split <;> simp
+
+theorem opTok1_refill {o : Op} {r : Bytes} {j : Nat} {st : PState} {carry off : Nat} :
+    opTok1 o r j = .refill st carry off → st = .none ∧ carry = r.length + 1 ∧ off = 0 := by
+  unfold opTok1; cases r with
+  | nil => simp; intro h1 h2 h3; exact ⟨h1.symm, h2.symm, h3.symm⟩
+  | cons d r => simp only; split <;> simp
+
+/-- every refill request of a token arm: which state, and that the carry is the whole tail -/
+theorem tokenAt_refill {c : UInt8} {r : Bytes} {j : Nat} {st : PState} {carry off : Nat}
+    (h : tokenAt c r j = .refill st carry off) :
+    (st = .none ∧ carry = r.length + 1 ∧ (c == 0xef) = false) ∨
+    (st = .quote ∧ c = 34 ∧ quoteScan r 0 = .more carry off) ∨
+    (st = .unquoted ∧ findIdx isBoundary r 0 = none ∧ carry = r.length + 1 ∧ off = r.length + 1 ∧
+      ∀ b, tokenAt c (r ++ b) j = unqTok c (r ++ b) j) := by
+  unfold tokenAt at h
+  split at h; · simp at h
+  split at h; · simp at h
+  split at h
+  · rename_i h34
+    have := quoteTok_refill h
+    right; left; exact ⟨this.1, by simpa using h34, this.2⟩
+  split at h
+  · rename_i _ _ _ h64
+    have hc : c = 64 := by simpa using h64
+    subst hc
+    unfold atTok at h
+    cases r with
+    | nil => simp at h; left; obtain ⟨h1, h2, _⟩ := h; exact ⟨h1.symm, by simp [h2.symm], by decide⟩
+    | cons d r' =>
+      simp only at h
+      split at h
+      · cases hf : findIdx (· == 93) r' 0 with
+        | none => rw [hf] at h; simp at h; left; obtain ⟨h1, h2, _⟩ := h; exact ⟨h1.symm, by simp [← h2], by decide⟩
+        | some k => rw [hf] at h; simp at h
+      · rename_i hd
+        have := unqTok_refill h
+        right; right
+        refine ⟨this.1, this.2.1, this.2.2.1, this.2.2.2, ?_⟩
+        intro b
+        simp [tokenAt, atTok, hd]
+  split at h
+  · rename_i hc; have := opTok2_refill h; left; exact ⟨this.1, this.2.1, by rw [eq_of_beq hc]; decide⟩
+  split at h
+  · rename_i hc; have := opTok2_refill h; left; exact ⟨this.1, this.2.1, by rw [eq_of_beq hc]; decide⟩
+  split at h
+  · rename_i hc; have := opTok1_refill h; left; exact ⟨this.1, this.2.1, by rw [eq_of_beq hc]; decide⟩
+  split at h
+  · rename_i hc; have := opTok1_refill h; left; exact ⟨this.1, this.2.1, by rw [eq_of_beq hc]; decide⟩
+  split at h
+  · rename_i hc; have := opTok2_refill h; left; exact ⟨this.1, this.2.1, by rw [eq_of_beq hc]; decide⟩
+  · rename_i h1 h2 h3 h4 h5 h6 h7 h8 h9
+    have := unqTok_refill h
+    right; right
+    refine ⟨this.1, this.2.1, this.2.2.1, this.2.2.2, ?_⟩
+    intro b
+    simp [tokenAt, h1, h2, h3, h4, h5, h6, h7, h8, h9]
+
+theorem tokenAt_quote (r : Bytes) (j : Nat) : tokenAt 34 r j = quoteTok r j := by
+  simp [tokenAt]
+
+theorem tokenAt_not_bomFill (c : UInt8) (r : Bytes) (j : Nat) : tokenAt c r j ≠ .bomFill := by
+  unfold tokenAt quoteTok atTok opTok1 opTok2 unqTok
+  repeat' split
+  all_goals simp
+
+end Jomini.TextReader
+
+namespace Jomini.TextReader
+open Jomini Jomini.TextReader.Spec
+
+/-! ### the source and the buffer -/
+
+/-- a schedule whose read sizes are at least one byte (harness/src/sched.rs only produces such sizes);
+fault steps (`fail`, `failForever`) are allowed -/
+def WfStep : Step → Prop
+  | .give n => 1 ≤ n
+  | .repeat_ n => 1 ≤ n
+  | .fail => True
+  | .failForever => True
+
+def WfSched (s : List Step) : Prop := ∀ x ∈ s, WfStep x
+
+/-- no fault steps at all -/
+def NoFaults (s : List Step) : Prop := ∀ x ∈ s, x ≠ .fail ∧ x ≠ .failForever
+
+theorem Src.read_wf (s : Src) (space : Nat) (hs : 1 ≤ space) (hw : WfSched s.sched) :
+    ((s.read space).2 = none ∧ WfSched (s.read space).1.sched ∧ ¬NoFaults s.sched) ∨
+    ∃ n, (s.rest ≠ [] → 1 ≤ n) ∧ n ≤ space ∧ n ≤ s.rest.length ∧
+      (s.read space).2 = some (s.rest.take n) ∧ (s.read space).1.rest = s.rest.drop n ∧
+      WfSched (s.read space).1.sched ∧ (NoFaults s.sched → NoFaults (s.read space).1.sched) := by
+  have hlen : s.rest ≠ [] → 1 ≤ s.rest.length := by
+    intro h; cases hr : s.rest with
+    | nil => exact absurd hr h
+    | cons _ _ => simp
+  unfold Src.read
+  cases hsch : s.sched with
+  | nil =>
+    right
+    refine ⟨min space s.rest.length, ?_, Nat.min_le_left _ _, Nat.min_le_right _ _, rfl, rfl, ?_, ?_⟩
+    · intro h; have := hlen h; omega
+    · intro x hx; simp at hx
+    · intro _ x hx; simp at hx
+  | cons st t =>
+    have hst : WfStep st := hw st (by simp [hsch])
+    have ht : WfSched t := fun x hx => hw x (by simp [hsch, hx])
+    cases st with
+    | give n =>
+      right
+      simp only [WfStep] at hst
+      refine ⟨min (min n space) s.rest.length, ?_, ?_, Nat.min_le_right _ _, rfl, rfl, ht, ?_⟩
+      · intro h; have := hlen h; omega
+      · omega
+      · intro hnf x hx; exact hnf x (by simp [hx])
+    | repeat_ n =>
+      right
+      simp only [WfStep] at hst
+      refine ⟨min (min n space) s.rest.length, ?_, ?_, Nat.min_le_right _ _, rfl, rfl, ?_, ?_⟩
+      · intro h; have := hlen h; omega
+      · omega
+      · intro x hx; simp at hx; rcases hx with rfl | hx
+        · exact hst
+        · exact ht x hx
+      · intro hnf x hx; exact hnf x hx
+    | fail =>
+      left
+      refine ⟨rfl, ht, ?_⟩
+      intro hnf; exact (hnf .fail (by simp)).1 rfl
+    | failForever =>
+      left
+      refine ⟨rfl, ?_, ?_⟩
+      · intro x hx; simp at hx; rcases hx with rfl | hx
+        · trivial
+        · exact ht x hx
+      · intro hnf; exact (hnf .failForever (by simp)).2 rfl
+
+/-- the reader `r` is at stream position `pos` with BOM state `bom`, and its window followed by the
+undelivered bytes is `d`; a slice reader (`cap = 0`) has nothing undelivered. -/
+structure Rel (r : Reader) (pos : Nat) (bom : Bom) (d : Bytes) : Prop where
+  pos : r.position = pos
+  bom : r.bom = bom
+  data : r.win ++ r.src.rest = d
+  wf : WfSched r.src.sched
+  capz : r.cap = 0 → r.src.rest = []
+
+theorem Rel.advance {r : Reader} {pos : Nat} {bom : Bom} {d : Bytes} (h : Rel r pos bom d) (k : Nat) (hk : k ≤ r.win.length) :
+    ∃ r', TextReader.advance r k = some r' ∧ Rel r' (pos + k) bom (d.drop k) ∧ r'.win = r.win.drop k ∧
+      r'.src = r.src ∧ r'.cap = r.cap := by
+  refine ⟨{ r with win := r.win.drop k, consumed := r.consumed + k }, by simp [TextReader.advance, hk], ?_, rfl, rfl, rfl⟩
+  constructor
+  · have := h.pos; simp only [Reader.position] at this ⊢; omega
+  · exact h.bom
+  · rw [← h.data, List.drop_append_of_le_length hk]
+  · exact h.wf
+  · exact h.capz
+
+theorem Rel.setBom {r : Reader} {pos : Nat} {bom : Bom} {d : Bytes} (h : Rel r pos bom d) (b : Bom) :
+    Rel { r with bom := b } pos b d :=
+  ⟨h.pos, rfl, h.data, h.wf, h.capz⟩
+
+theorem Rel.win_le {r : Reader} {pos : Nat} {bom : Bom} {d : Bytes} (h : Rel r pos bom d) : r.win.length ≤ d.length := by
+  rw [← h.data]; simp
+
+/-- the outcomes of `fill_buf`: an I/O error (only with a fault step in the schedule), `BufferFull` (exactly when the
+window already fills a non-empty buffer), end of input, or at least one more byte. -/
+theorem Rel.fill {r : Reader} {pos : Nat} {bom : Bom} {d : Bytes} (h : Rel r pos bom d) :
+    (∃ r', fillBuf r = (r', .io) ∧ r.cap ≠ 0 ∧ ¬NoFaults r.src.sched) ∨
+    (fillBuf r = (r, .full) ∧ r.cap ≠ 0 ∧ r.cap ≤ r.win.length) ∨
+    (r.src.rest = [] ∧ ∃ r', fillBuf r = (r', .ok 0) ∧ Rel r' pos bom d ∧ r'.win = r.win ∧ r'.src.rest = [] ∧ r'.cap = r.cap ∧
+      (NoFaults r.src.sched → NoFaults r'.src.sched)) ∨
+    (r.src.rest ≠ [] ∧ ∃ r' n, fillBuf r = (r', .ok (n + 1)) ∧ Rel r' pos bom d ∧ n + 1 ≤ r.src.rest.length ∧
+      r'.win = r.win ++ r.src.rest.take (n + 1) ∧ r'.src.rest = r.src.rest.drop (n + 1) ∧ r'.cap = r.cap ∧
+      (NoFaults r.src.sched → NoFaults r'.src.sched)) := by
+  by_cases hc : r.cap = 0
+  · right; right; left
+    have he := h.capz hc
+    exact ⟨he, r, by simp [fillBuf, hc], h, rfl, he, rfl, id⟩
+  by_cases hfull : r.cap ≤ r.win.length
+  · right; left
+    exact ⟨by simp [fillBuf, hc]; omega, hc, hfull⟩
+  have hnf : ¬ r.win.length ≥ r.cap := by omega
+  rcases Src.read_wf r.src (r.cap - r.win.length) (by omega) h.wf with ⟨h2, h4, h5⟩ | ⟨n, h1, h1', hn, h2, h3, h4, h5⟩
+  · left
+    generalize hread : r.src.read (r.cap - r.win.length) = res at h2 h4
+    obtain ⟨src', ob⟩ := res
+    simp only at h2 h4
+    subst h2
+    exact ⟨{ r with prior := r.prior + r.consumed, consumed := 0, src := src' }, by simp [fillBuf, hc, hnf, hread], hc, h5⟩
+  generalize hread : r.src.read (r.cap - r.win.length) = res at h2 h3 h4 h5
+  obtain ⟨src', ob⟩ := res
+  simp only at h2 h3 h4 h5
+  subst h2
+  by_cases he : r.src.rest = []
+  · right; right; left
+    have hn0 : n = 0 := by simp [he] at hn; exact hn
+    subst hn0
+    refine ⟨he, { r with prior := r.prior + r.consumed, consumed := 0, src := src', win := r.win ++ [] }, ?_, ?_, by simp, by simp [h3, he], rfl, h5⟩
+    · simp [fillBuf, hc, hnf, hread]
+    · constructor
+      · have := h.pos; simp only [Reader.position] at this ⊢; omega
+      · exact h.bom
+      · simp only [h3, he, List.drop_nil, List.append_nil]; rw [← h.data, he]; simp
+      · exact h4
+      · intro hc0; exact absurd hc0 hc
+  · right; right; right
+    have hn1 := h1 he
+    obtain ⟨m, rfl⟩ : ∃ m, n = m + 1 := ⟨n - 1, by omega⟩
+    have hl : (List.take (m + 1) r.src.rest).length = m + 1 := by simp; omega
+    refine ⟨he, { r with prior := r.prior + r.consumed, consumed := 0, src := src', win := r.win ++ List.take (m + 1) r.src.rest }, m,
+      ?_, ?_, hn, rfl, h3, rfl, h5⟩
+    · simp [fillBuf, hc, hnf, hread, hl]
+    · constructor
+      · have := h.pos; simp only [Reader.position] at this ⊢; omega
+      · exact h.bom
+      · simp only [h3, List.append_assoc, List.take_append_drop]; exact h.data
+      · exact h4
+      · intro hc0; exact absurd hc0 hc
+
+/-- the call stopped with an error that is not the reference's: `BufferFull` (the window already filled the non-empty
+buffer of capacity `cap`) or an I/O error of the underlying `Read` -/
+def FullAlt {α : Type} (cap : Nat) (d : Bytes) (res : Res α) : Prop :=
+  cap ≠ 0 ∧ ∃ r', (res = .err r' .full ∧ cap ≤ r'.win.length ∧ r'.win.length ≤ d.length) ∨ res = .err r' .io
+
+theorem FullAlt.mk_full {α : Type} {cap : Nat} {d : Bytes} {res : Res α} (r' : Reader) (h1 : res = .err r' .full)
+    (h2 : cap ≠ 0) (h3 : cap ≤ r'.win.length) (h4 : r'.win.length ≤ d.length) : FullAlt cap d res :=
+  ⟨h2, r', Or.inl ⟨h1, h3, h4⟩⟩
+
+theorem FullAlt.mk_io {α : Type} {cap : Nat} {d : Bytes} {res : Res α} (r' : Reader) (h1 : res = .err r' .io)
+    (h2 : cap ≠ 0) : FullAlt cap d res :=
+  ⟨h2, r', Or.inr h1⟩
+
+theorem FullAlt.mono {α : Type} {cap : Nat} {d d' : Bytes} {res : Res α} (h : FullAlt cap d' res) (hl : d'.length ≤ d.length) :
+    FullAlt cap d res := by
+  obtain ⟨h2, r', h | h⟩ := h
+  · exact ⟨h2, r', Or.inl ⟨h.1, h.2.1, by omega⟩⟩
+  · exact ⟨h2, r', Or.inr h⟩
+
+/-! ### continuing inside a quoted scalar across refills -/
+
+theorem run_quote (n : Nat) : ∀ (r : Reader) (pos : Nat) (bom : Bom) (d junk a : Bytes) (off fuel : Nat),
+    r.src.rest.length ≤ n → Rel r pos bom d → r.win = junk ++ a → off ≤ a.length →
+    quoteEnd a 0 = none →
+    (∀ x, quoteEnd (a ++ x) 0 = quoteEnd ((a ++ x).drop off) off) →
+    2 * r.src.rest.length + 2 ≤ fuel →
+    FullAlt r.cap d (run fuel (.refill .quote a.length off) r) ∨
+    match quoteEnd (a ++ r.src.rest) 0 with
+    | some m => ∃ r', run fuel (.refill .quote a.length off) r = .ok r' (some (.quoted ((a ++ r.src.rest).take m))) ∧
+        Rel r' (pos + junk.length + (m + 1)) bom ((a ++ r.src.rest).drop (m + 1)) ∧ r'.cap = r.cap
+    | none => ∃ r', run fuel (.refill .quote a.length off) r = .err r' .eof ∧ r'.position = pos + junk.length := by
+  induction n with
+  | zero =>
+    intro r pos bom d junk a off fuel hn hrel hwin hoff hnone hres hfuel
+    have he : r.src.rest = [] := List.eq_nil_of_length_eq_zero (by omega)
+    obtain ⟨f, rfl⟩ : ∃ f, fuel = f + 1 := ⟨fuel - 1, by omega⟩
+    obtain ⟨r0, hadv, hrel0, hwin0, hsrc0, hcap0⟩ := hrel.advance junk.length (by simp [hwin])
+    have hrest0 : r0.src.rest = [] := by rw [hsrc0]; exact he
+    have e : r.win.length - a.length = junk.length := by simp [hwin]
+    have hgt : ¬ a.length > r.win.length := by simp [hwin]
+    have hw0 : r0.win.length ≤ d.length := by have := hrel.win_le; rw [hwin0]; simp; omega
+    rcases hrel0.fill with ⟨rio, hfill, hc1, _⟩ | ⟨hfill, hc1, hc2⟩ | ⟨_, r1, hfill, hrel1, hwin1, _, _⟩ | ⟨hne, _⟩
+    · left
+      refine FullAlt.mk_io rio ?_ (by rw [← hcap0]; exact hc1)
+      rw [run]; simp only [e, hadv, hgt, if_false, hfill]
+    · left
+      refine FullAlt.mk_full r0 ?_ (by rw [← hcap0]; exact hc1) (by rw [← hcap0]; exact hc2) hw0
+      rw [run]; simp only [e, hadv, hgt, if_false, hfill]
+    · right
+      simp only [he, List.append_nil, hnone]
+      refine ⟨r1, ?_, hrel1.pos⟩
+      rw [run]
+      simp only [e, hadv, hgt, if_false, hfill]
+    · exact absurd hrest0 hne
+  | succ n ih =>
+    intro r pos bom d junk a off fuel hn hrel hwin hoff hnone hres hfuel
+    obtain ⟨f, rfl⟩ : ∃ f, fuel = f + 1 := ⟨fuel - 1, by omega⟩
+    obtain ⟨r0, hadv, hrel0, hwin0, hsrc0, hcap0⟩ := hrel.advance junk.length (by simp [hwin])
+    have e : r.win.length - a.length = junk.length := by simp [hwin]
+    have hgt : ¬ a.length > r.win.length := by simp [hwin]
+    have hwin0' : r0.win = a := by rw [hwin0, hwin]; simp
+    have hw0 : r0.win.length ≤ d.length := by have := hrel.win_le; rw [hwin0]; simp; omega
+    have hdata : d = junk ++ a ++ r.src.rest := by rw [← hrel.data, hwin]
+    rcases hrel0.fill with ⟨rio, hfill, hc1, _⟩ | ⟨hfill, hc1, hc2⟩ | ⟨he0, r1, hfill, hrel1, hwin1, _, _⟩ | ⟨hne0, r1, k, hfill, hrel1, hk, hwin1, hrest1, hcap1, _⟩
+    · left
+      refine FullAlt.mk_io rio ?_ (by rw [← hcap0]; exact hc1)
+      rw [run]; simp only [e, hadv, hgt, if_false, hfill]
+    · left
+      refine FullAlt.mk_full r0 ?_ (by rw [← hcap0]; exact hc1) (by rw [← hcap0]; exact hc2) hw0
+      rw [run]; simp only [e, hadv, hgt, if_false, hfill]
+    · right
+      have he : r.src.rest = [] := by rw [← hsrc0]; exact he0
+      simp only [he, List.append_nil, hnone]
+      refine ⟨r1, ?_, hrel1.pos⟩
+      rw [run]
+      simp only [e, hadv, hgt, if_false, hfill]
+    · rw [hsrc0] at hk hwin1 hrest1
+      rw [hwin0'] at hwin1
+      -- the data seen so far and the rest
+      generalize hnew : r.src.rest.take (k + 1) = new at hwin1
+      have hsplit : r.src.rest = new ++ r1.src.rest := by rw [hrest1, ← hnew]; simp
+      have hd1 : a ++ r.src.rest = (a ++ new) ++ r1.src.rest := by rw [hsplit]; simp
+      have hlen1 : r1.src.rest.length ≤ n := by rw [hrest1]; simp; omega
+      have hrun : run (f + 1) (.refill .quote a.length off) r =
+          match quoteRescan r1.win.length (r1.win.drop off) off with
+          | .closed m =>
+            match advance r1 (m + 1) with
+            | some r2 => .ok r2 (some (.quoted (r1.win.take m)))
+            | none => .panic
+          | .more c o => run f (.refill .quote c o) r1 := by
+        rw [run]
+        simp only [e, hadv, hgt, if_false, hfill]
+        rfl
+      rw [hrun, hwin1]
+      have hoff' : off ≤ (a ++ new).length := by simp; omega
+      have hlenL : (a ++ new).length = off + ((a ++ new).drop off).length := by simp; omega
+      have hdd : (junk ++ a ++ r.src.rest).drop junk.length = a ++ r.src.rest := by simp
+      rw [hdata, hdd] at hrel1
+      cases hq : quoteRescan (a ++ new).length ((a ++ new).drop off) off with
+      | closed m =>
+        right
+        have e1 : quoteEnd (a ++ new) 0 = some m := by rw [hres new]; exact quoteRescan_closed hq
+        have hb := quoteEnd_bounds e1
+        have e2 : quoteEnd (a ++ r.src.rest) 0 = some m := by rw [hd1]; exact quoteEnd_append _ e1
+        simp only [e2]
+        obtain ⟨r2, hadv2, hrel2, _, _, hcap2⟩ := hrel1.advance (m + 1) (by rw [hwin1]; simp at hb ⊢; omega)
+        refine ⟨r2, ?_, hrel2, by rw [hcap2, hcap1, hcap0]⟩
+        simp only [hadv2]
+        have ht : ((a ++ new) ++ r1.src.rest).take m = (a ++ new).take m :=
+          List.take_append_of_le_length (by simp at hb ⊢; omega)
+        rw [hd1, ht]
+      | more c o =>
+        obtain ⟨h1, h2, h3, h4, h5⟩ := quoteRescan_more hlenL hq
+        subst h2
+        have hnone' : quoteEnd (a ++ new) 0 = none := by rw [hres new]; exact h1
+        have hres' : ∀ x, quoteEnd ((a ++ new) ++ x) 0 = quoteEnd (((a ++ new) ++ x).drop o) o := by
+          intro x
+          have := hres (new ++ x)
+          rw [← List.append_assoc] at this
+          rw [this]
+          have := h5 x
+          rw [← List.drop_append_of_le_length hoff'] at this
+          rw [this, List.drop_drop]
+          congr 2; omega
+        have hdata1 : r1.win = [] ++ (a ++ new) := by simp [hwin1]
+        have hl1 : r1.src.rest.length + (k + 1) = r.src.rest.length := by rw [hrest1]; simp; omega
+        have := ih r1 (pos + junk.length) bom _ [] (a ++ new) o f hlen1 hrel1 hdata1 h4 hnone' hres' (by omega)
+        rw [← hd1] at this
+        rcases this with hfa | hok
+        · left
+          rw [hcap1, hcap0] at hfa
+          exact hfa.mono (by rw [hdata]; simp)
+        · right
+          cases hqe : quoteEnd (a ++ r.src.rest) 0 with
+          | none =>
+            rw [hqe] at hok; simp only at hok ⊢
+            simpa using hok
+          | some m =>
+            rw [hqe] at hok; simp only at hok ⊢
+            obtain ⟨r', h1', h2', h3'⟩ := hok
+            exact ⟨r', h1', by simpa using h2', by rw [h3', hcap1, hcap0]⟩
+
+end Jomini.TextReader
+
+namespace Jomini.TextReader
+open Jomini Jomini.TextReader.Spec
+
+/-! ### continuing inside an unquoted scalar across refills -/
+
+theorem findIdx_shift (p : UInt8 → Bool) (l : Bytes) (i j : Nat) :
+    findIdx p l (i + j) = (findIdx p l i).map (· + j) := by
+  induction l generalizing i with
+  | nil => simp [findIdx]
+  | cons c l ih =>
+    simp only [findIdx]
+    split
+    · simp
+    · rw [show i + j + 1 = (i + 1) + j by omega, ih]
+
+theorem run_unq (n : Nat) : ∀ (r : Reader) (pos : Nat) (bom : Bom) (d junk : Bytes) (c : UInt8) (body : Bytes) (fuel : Nat),
+    r.src.rest.length ≤ n → Rel r pos bom d → r.win = junk ++ c :: body →
+    findIdx isBoundary body 0 = none →
+    2 * r.src.rest.length + 2 ≤ fuel →
+    FullAlt r.cap d (run fuel (.refill .unquoted (body.length + 1) (body.length + 1)) r) ∨
+    match findIdx isBoundary (body ++ r.src.rest) 0 with
+    | some k => ∃ r', run fuel (.refill .unquoted (body.length + 1) (body.length + 1)) r =
+          .ok r' (some (.unquoted ((c :: (body ++ r.src.rest)).take (1 + k)))) ∧
+        Rel r' (pos + junk.length + (1 + k)) bom ((c :: (body ++ r.src.rest)).drop (1 + k)) ∧ r'.cap = r.cap
+    | none => ∃ r', run fuel (.refill .unquoted (body.length + 1) (body.length + 1)) r =
+          .ok r' (some (.unquoted (c :: (body ++ r.src.rest)))) ∧
+        Rel r' (pos + junk.length + (body.length + 1 + r.src.rest.length)) bom [] ∧ r'.cap = r.cap := by
+  induction n with
+  | zero =>
+    intro r pos bom d junk c body fuel hn hrel hwin hnone hfuel
+    have he : r.src.rest = [] := List.eq_nil_of_length_eq_zero (by omega)
+    obtain ⟨f, rfl⟩ : ∃ f, fuel = f + 1 := ⟨fuel - 1, by omega⟩
+    obtain ⟨r0, hadv, hrel0, hwin0, hsrc0, hcap0⟩ := hrel.advance junk.length (by simp [hwin])
+    have hrest0 : r0.src.rest = [] := by rw [hsrc0]; exact he
+    have e : r.win.length - (body.length + 1) = junk.length := by simp [hwin]
+    have hgt : ¬ body.length + 1 > r.win.length := by simp [hwin]
+    have hw0 : r0.win.length ≤ d.length := by have := hrel.win_le; rw [hwin0]; simp; omega
+    rcases hrel0.fill with ⟨rio, hfill, hc1, _⟩ | ⟨hfill, hc1, hc2⟩ | ⟨_, r1, hfill, hrel1, hwin1, hrest1, hcap1, _⟩ | ⟨hne, _⟩
+    · left
+      refine FullAlt.mk_io rio ?_ (by rw [← hcap0]; exact hc1)
+      rw [run]; simp only [e, hadv, hgt, if_false, hfill]
+    · left
+      refine FullAlt.mk_full r0 ?_ (by rw [← hcap0]; exact hc1) (by rw [← hcap0]; exact hc2) hw0
+      rw [run]; simp only [e, hadv, hgt, if_false, hfill]
+    · right
+      have hwin1' : r1.win = c :: body := by rw [hwin1, hwin0, hwin]; simp
+      obtain ⟨r2, hadv2, hrel2, _, _, hcap2⟩ := hrel1.advance r1.win.length (Nat.le_refl _)
+      simp only [he, List.append_nil, hnone]
+      refine ⟨r2, ?_, ?_, by rw [hcap2, hcap1, hcap0]⟩
+      · rw [run]
+        simp only [e, hadv, hgt, if_false, hfill]
+        have : ¬ r1.win.length < body.length + 1 := by simp [hwin1']
+        simp only [this, if_false, hadv2]
+        simp [hwin1']
+      · have hd : (List.drop junk.length d).drop r1.win.length = [] := by
+          rw [← hrel1.data, hrest1]; simp
+        rw [hd] at hrel2
+        have : pos + junk.length + r1.win.length = pos + junk.length + (body.length + 1 + 0) := by simp [hwin1']
+        simpa [this] using hrel2
+    · exact absurd hrest0 hne
+  | succ n ih =>
+    intro r pos bom d junk c body fuel hn hrel hwin hnone hfuel
+    obtain ⟨f, rfl⟩ : ∃ f, fuel = f + 1 := ⟨fuel - 1, by omega⟩
+    obtain ⟨r0, hadv, hrel0, hwin0, hsrc0, hcap0⟩ := hrel.advance junk.length (by simp [hwin])
+    have e : r.win.length - (body.length + 1) = junk.length := by simp [hwin]
+    have hgt : ¬ body.length + 1 > r.win.length := by simp [hwin]
+    have hwin0' : r0.win = c :: body := by rw [hwin0, hwin]; simp
+    have hw0 : r0.win.length ≤ d.length := by have := hrel.win_le; rw [hwin0]; simp; omega
+    have hdata : d = junk ++ c :: (body ++ r.src.rest) := by rw [← hrel.data, hwin]; simp
+    rcases hrel0.fill with ⟨rio, hfill, hc1, _⟩ | ⟨hfill, hc1, hc2⟩ | ⟨he0, r1, hfill, hrel1, hwin1, hrest1, hcap1, _⟩ | ⟨hne0, r1, k, hfill, hrel1, hk, hwin1, hrest1, hcap1, _⟩
+    · left
+      refine FullAlt.mk_io rio ?_ (by rw [← hcap0]; exact hc1)
+      rw [run]; simp only [e, hadv, hgt, if_false, hfill]
+    · left
+      refine FullAlt.mk_full r0 ?_ (by rw [← hcap0]; exact hc1) (by rw [← hcap0]; exact hc2) hw0
+      rw [run]; simp only [e, hadv, hgt, if_false, hfill]
+    · right
+      have he : r.src.rest = [] := by rw [← hsrc0]; exact he0
+      have hwin1' : r1.win = c :: body := by rw [hwin1, hwin0']
+      obtain ⟨r2, hadv2, hrel2, _, _, hcap2⟩ := hrel1.advance r1.win.length (Nat.le_refl _)
+      simp only [he, List.append_nil, hnone]
+      refine ⟨r2, ?_, ?_, by rw [hcap2, hcap1, hcap0]⟩
+      · rw [run]
+        simp only [e, hadv, hgt, if_false, hfill]
+        have : ¬ r1.win.length < body.length + 1 := by simp [hwin1']
+        simp only [this, if_false, hadv2]
+        simp [hwin1']
+      · have hd : (List.drop junk.length d).drop r1.win.length = [] := by
+          rw [← hrel1.data, hrest1]; simp
+        rw [hd] at hrel2
+        have : pos + junk.length + r1.win.length = pos + junk.length + (body.length + 1 + 0) := by simp [hwin1']
+        simpa [this] using hrel2
+    · rw [hsrc0] at hk hwin1 hrest1
+      rw [hwin0'] at hwin1
+      generalize hnew : r.src.rest.take (k + 1) = new at hwin1
+      have hsplit : r.src.rest = new ++ r1.src.rest := by rw [hrest1, ← hnew]; simp
+      have hlen1 : r1.src.rest.length ≤ n := by rw [hrest1]; simp; omega
+      have hl1 : r1.src.rest.length + (k + 1) = r.src.rest.length := by rw [hrest1]; simp; omega
+      have hnewlen : new.length = k + 1 := by rw [← hnew]; simp; omega
+      have hrun : run (f + 1) (.refill .unquoted (body.length + 1) (body.length + 1)) r =
+          match findIdx isBoundary (r1.win.drop (body.length + 1)) (body.length + 1) with
+          | some m =>
+            match advance r1 m with
+            | some r2 => .ok r2 (some (.unquoted (r1.win.take m)))
+            | none => .panic
+          | none => run f (.refill .unquoted r1.win.length r1.win.length) r1 := by
+        rw [run]
+        simp only [e, hadv, hgt, if_false, hfill]
+        rfl
+      rw [hrun, hwin1]
+      have hdrop : (c :: body ++ new).drop (body.length + 1) = new := by simp
+      rw [hdrop]
+      have hbn : findIdx isBoundary (body ++ new) 0 = findIdx isBoundary new body.length := by
+        rw [findIdx_append_none new hnone]; simp
+      have hsh : findIdx isBoundary new (body.length + 1) = (findIdx isBoundary new body.length).map (· + 1) :=
+        findIdx_shift _ _ _ _
+      have hdd : List.drop junk.length d = c :: (body ++ r.src.rest) := by rw [hdata]; simp
+      rw [hdd] at hrel1
+      cases hq : findIdx isBoundary new body.length with
+      | some k' =>
+        right
+        have e1 : findIdx isBoundary (body ++ r.src.rest) 0 = some k' := by
+          rw [hsplit, ← List.append_assoc]; exact findIdx_append_some _ (by rw [hbn]; exact hq)
+        have hb := findIdx_some_bounds hq
+        simp only [e1, hsh, hq, Option.map_some]
+        obtain ⟨r2, hadv2, hrel2, _, _, hcap2⟩ := hrel1.advance (k' + 1) (by rw [hwin1]; simp; omega)
+        refine ⟨r2, ?_, ?_, by rw [hcap2, hcap1, hcap0]⟩
+        · simp only [hadv2]
+          have ht : (c :: (body ++ r.src.rest)).take (1 + k') = (c :: body ++ new).take (k' + 1) := by
+            rw [hsplit, show 1 + k' = k' + 1 by omega]
+            simp only [List.cons_append, List.take_succ_cons, ← List.append_assoc]
+            rw [List.take_append_of_le_length (by simp; omega)]
+          rw [ht]
+        · rw [show 1 + k' = k' + 1 by omega]; exact hrel2
+      | none =>
+        have hnone' : findIdx isBoundary (body ++ new) 0 = none := by rw [hbn]; exact hq
+        simp only [hsh, hq, Option.map_none]
+        have hwin1' : r1.win = [] ++ c :: (body ++ new) := by simp [hwin1]
+        have := ih r1 (pos + junk.length) bom _ [] c (body ++ new) f hlen1 hrel1 hwin1' hnone' (by omega)
+        have hassoc : body ++ new ++ r1.src.rest = body ++ r.src.rest := by rw [hsplit]; simp
+        rw [hassoc] at this
+        have hlen2 : (body ++ new).length + 1 = (c :: body ++ new).length := by simp
+        rw [hlen2] at this
+        rcases this with hfa | hok
+        · left
+          rw [hcap1, hcap0] at hfa
+          exact hfa.mono (by rw [hdata]; simp)
+        · right
+          cases hfin : findIdx isBoundary (body ++ r.src.rest) 0 with
+          | some kk =>
+            simp only [hfin] at hok ⊢
+            obtain ⟨r', h1, h2, h3⟩ := hok
+            exact ⟨r', h1, by simpa using h2, by rw [h3, hcap1, hcap0]⟩
+          | none =>
+            simp only [hfin] at hok ⊢
+            obtain ⟨r', h1, h2, h3⟩ := hok
+            refine ⟨r', h1, ?_, by rw [h3, hcap1, hcap0]⟩
+            have : pos + junk.length + (body.length + 1 + r.src.rest.length) =
+                pos + junk.length + ([] : Bytes).length + ((body ++ new).length + 1 + r1.src.rest.length) := by
+              simp; omega
+            rw [this]; exact h2
+
+end Jomini.TextReader
+
+namespace Jomini.TextReader
+open Jomini Jomini.TextReader.Spec
+
+/-! ### the reference step and skipped prefixes -/
+
+def shiftStep (k : Nat) : Step1 → Step1
+  | .tok adv t b => .tok (adv + k) t b
+  | .end_ b => .end_ b
+  | .eof a b => .eof (a + k) b
+
+theorem shiftScan_zero (s : Scan) : shiftScan 0 s = s := by cases s <;> simp [shiftScan]
+
+theorem tokenAt_carry_le {c : UInt8} {r : Bytes} {j : Nat} {st : PState} {carry off : Nat}
+    (h : tokenAt c r j = .refill st carry off) : carry ≤ r.length + 1 := by
+  rcases tokenAt_refill h with ⟨_, h2, _⟩ | ⟨_, _, h2⟩ | ⟨_, _, h2, _⟩
+  · omega
+  · have := (quoteScan_more h2).2.1; omega
+  · omega
+
+/-- value of the scan on a tail shape -/
+theorem fbLoop_tail {pos0 : Bool} {j : Nat} {bom : Bom} {tail : Bytes} (ht : Tail pos0 j bom tail) :
+    (tail = [] ∧ fbLoop pos0 tail .top j bom = (bom, .refill .none 0 0)) ∨
+    (∃ a, tail = 35 :: a ∧ fbLoop pos0 tail .top j bom = (bom, .refill .none tail.length 0)) ∨
+    (∃ c r bomR, tail = c :: r ∧ (c == 35) = false ∧ ((c == 0xef) = false → bomR = bom) ∧
+        ∀ x, fbLoop pos0 (tail ++ x) .top j bom = (bomR, tokenAt c (r ++ x) j)) ∨
+    (∃ r, tail = 0xef :: r ∧ r.length < 2 ∧ BomCheck pos0 0xef j bom ∧ fbLoop pos0 tail .top j bom = (bom, .bomFill)) := by
+  cases ht with
+  | empty => left; exact ⟨rfl, by simp [fbLoop]⟩
+  | comment a ha =>
+    right; left
+    refine ⟨a, rfl, ?_⟩
+    rw [fbLoop_top_cons]
+    simp only [show isBlank 35 = false by decide, Bool.false_eq_true, if_false, beq_self_eq_true, if_true]
+    rw [fbLoop_comment_open pos0 a ha]
+    simp; omega
+  | token c r hb h35 hbc =>
+    right; right; left
+    refine ⟨c, r, bomAfter c bom, rfl, h35, ?_, ?_⟩
+    · intro he; simp [bomAfter, he]
+    · intro x; exact fbLoop_token hb h35 hbc
+  | bomShort r hbc hr =>
+    right; right; right
+    exact ⟨r, rfl, hr, hbc, fbLoop_bomShort hbc hr⟩
+  | bomNo d e r hbc hn =>
+    right; right; left
+    refine ⟨0xef, d :: e :: r, .notPresent, rfl, by decide, by intro h; simp at h, ?_⟩
+    intro x
+    exact fbLoop_bomNo hbc hn
+
+theorem fbLoop_refill_carry {pos0 : Bool} {w : Bytes} {bom bom' : Bom} {st : PState} {carry off : Nat}
+    (h : fbLoop pos0 w .top 0 bom = (bom', .refill st carry off)) : carry ≤ w.length := by
+  obtain ⟨pre, tail, bom_s, rfl, hs, ht⟩ := decompose pos0 w.length w 0 bom (Nat.le_refl _)
+  rw [hs.fbLoop] at h
+  simp only [Nat.zero_add] at h ht
+  rcases fbLoop_tail ht with ⟨_, h1⟩ | ⟨a, _, h1⟩ | ⟨c, r, bomR, rfl, _, _, h1⟩ | ⟨r, _, _, _, h1⟩
+  · rw [h1] at h; simp at h; omega
+  · rw [h1] at h; simp at h; simp; omega
+  · have := h1 []; simp only [List.append_nil] at this
+    rw [this] at h; simp only [Prod.mk.injEq] at h
+    have := tokenAt_carry_le h.2; simp; omega
+  · rw [h1] at h; simp at h
+
+theorem interp_shift (pre y : Bytes) (b : Bom) (s : Scan)
+    (hc : ∀ st carry off, s = .refill st carry off → carry ≤ y.length) :
+    interp (pre ++ y) (b, shiftScan pre.length s) = (interp y (b, s)).map (shiftStep pre.length) := by
+  cases s with
+  | tok adv t => simp [shiftScan, interp, shiftStep]
+  | bomFill => simp [shiftScan, interp]
+  | refill st carry off =>
+    have hc := hc st carry off rfl
+    have e1 : (pre ++ y).length - carry = pre.length + (y.length - carry) := by simp; omega
+    have e2 : (pre ++ y).drop (pre.length + (y.length - carry)) = y.drop (y.length - carry) := by
+      rw [List.drop_append]; simp
+    cases st with
+    | none =>
+      simp only [shiftScan, interp]
+      split
+      · simp [shiftStep]
+      · rw [e1, e2]
+        cases y.drop (y.length - carry) with
+        | nil => simp
+        | cons c _ => simp only; split <;> simp [shiftStep]; omega
+    | quote => simp only [shiftScan, interp, e1]; simp [shiftStep]; omega
+    | unquoted => simp only [shiftScan, interp, e1, e2]; simp [shiftStep]; omega
+
+/-- **skipped bytes do not matter**: the reference step on `pre ++ y`, where the scan passes over all of
+`pre`, is the reference step on `y` for a reader that is no longer at position 0, shifted by `|pre|`. -/
+theorem spec_skip {pos0 : Bool} {pre : Bytes} {bom bom_s : Bom} (hs : Skips pos0 pre 0 bom bom_s) (hne : pre ≠ [])
+    (y : Bytes) : specStep pos0 bom (pre ++ y) = (specStep false bom_s y).map (shiftStep pre.length) := by
+  have hk : 0 < pre.length := by cases pre with | nil => exact absurd rfl hne | cons _ _ => simp
+  have h1 : fbLoop pos0 (pre ++ y) .top 0 bom =
+      ((fbLoop false y .top 0 bom_s).1, shiftScan pre.length (fbLoop false y .top 0 bom_s).2) := by
+    rw [hs.fbLoop]
+    have := fbLoop_shift pos0 pre.length hk y.length y .top 0 bom_s (Nat.le_refl _)
+    simpa [shiftMode] using this
+  -- a reader that is not at position 0 never asks for the BOM refill
+  have hnb : (fbLoop false y .top 0 bom_s).2 ≠ .bomFill := by
+    obtain ⟨p2, t2, b2, rfl, hs2, ht2⟩ := decompose false y.length y 0 bom_s (Nat.le_refl _)
+    rw [hs2.fbLoop]
+    simp only [Nat.zero_add] at ht2 ⊢
+    rcases fbLoop_tail ht2 with ⟨_, h1⟩ | ⟨a, _, h1⟩ | ⟨c, r, bomR, rfl, _, _, h1⟩ | ⟨r, _, _, hbc, _⟩
+    · rw [h1]; simp
+    · rw [h1]; simp
+    · have := h1 []; simp only [List.append_nil] at this; rw [this]; exact tokenAt_not_bomFill _ _ _
+    · exact absurd hbc.2.2.2 (by simp)
+  generalize hres : fbLoop false y .top 0 bom_s = res at h1 hnb
+  obtain ⟨b, s⟩ := res
+  simp only at h1 hnb
+  have hcar : ∀ st carry off, s = .refill st carry off → carry ≤ y.length := by
+    intro st carry off hh; subst hh; exact fbLoop_refill_carry hres
+  unfold specStep
+  rw [h1, hres]
+  cases s with
+  | bomFill => exact absurd rfl hnb
+  | tok adv t => simpa [shiftScan] using interp_shift pre y b (.tok adv t) hcar
+  | refill st carry off => simpa [shiftScan] using interp_shift pre y b (.refill st carry off) hcar
+
+end Jomini.TextReader
+
+namespace Jomini.TextReader
+open Jomini Jomini.TextReader.Spec
+
+/-! ### one call of `next_opt_fallback` agrees with the reference step -/
+
+/-- the result `res` of a call made at stream position `pos` with BOM state `bom`, the remaining input
+being `d`, is the one the reference step prescribes, and the reader is left in a state related to the
+remaining input. -/
+def OutOk (res : Res (Option Token)) (cap : Nat) (pos : Nat) (bom : Bom) (d : Bytes) : Prop :=
+  match specStep (pos == 0) bom d with
+  | some (.tok adv t b') => ∃ r', res = .ok r' (some t) ∧ Rel r' (pos + adv) b' (d.drop adv) ∧ adv ≤ d.length ∧ r'.cap = cap
+  | some (.end_ b') => ∃ r', res = .ok r' none ∧ Rel r' (pos + d.length) b' [] ∧ r'.cap = cap
+  | some (.eof a _) => ∃ r', res = .err r' .eof ∧ r'.position = pos + a
+  | none => True
+
+/-- … or the call ended in `BufferFull` because the window already filled the buffer (capacity `cap`). -/
+def Out (res : Res (Option Token)) (cap : Nat) (pos : Nat) (bom : Bom) (d : Bytes) : Prop :=
+  FullAlt cap d res ∨ OutOk res cap pos bom d
+
+theorem Skips.nil_eq {pos0 : Bool} {i : Nat} {bom bom' : Bom} (h : Skips pos0 [] i bom bom') : bom' = bom := by
+  cases h; rfl
+
+theorem OutOk_skip {res : Res (Option Token)} {cap pos : Nat} {pre y : Bytes} {bom bom_s : Bom}
+    (hs : Skips (pos == 0) pre 0 bom bom_s) (h : OutOk res cap (pos + pre.length) bom_s y) : OutOk res cap pos bom (pre ++ y) := by
+  by_cases hne : pre = []
+  · subst hne
+    have := hs.nil_eq; subst this
+    simpa using h
+  · have hk : 0 < pre.length := by cases pre with | nil => exact absurd rfl hne | cons _ _ => simp
+    have hp : (pos + pre.length == 0) = false := by
+      have : pos + pre.length ≠ 0 := by omega
+      simpa using this
+    unfold OutOk at h ⊢
+    rw [spec_skip hs hne y]
+    rw [hp] at h
+    cases hsp : specStep false bom_s y with
+    | none => simp
+    | some st =>
+      rw [hsp] at h
+      cases st with
+      | tok adv t b' =>
+        simp only [Option.map_some, shiftStep] at h ⊢
+        obtain ⟨r', h1, h2, h3, h4⟩ := h
+        refine ⟨r', h1, ?_, by simp; omega, h4⟩
+        have e1 : pos + (adv + pre.length) = pos + pre.length + adv := by omega
+        have e2 : (pre ++ y).drop (adv + pre.length) = y.drop adv := by
+          rw [List.drop_append]; simp
+        rw [e1, e2]; exact h2
+      | end_ b' =>
+        simp only [Option.map_some, shiftStep] at h ⊢
+        obtain ⟨r', h1, h2, h3⟩ := h
+        refine ⟨r', h1, ?_, h3⟩
+        have e1 : pos + (pre ++ y).length = pos + pre.length + y.length := by simp; omega
+        rw [e1]; exact h2
+      | eof a b' =>
+        simp only [Option.map_some, shiftStep] at h ⊢
+        obtain ⟨r', h1, h2⟩ := h
+        exact ⟨r', h1, by rw [h2]; omega⟩
+
+theorem Out_skip {res : Res (Option Token)} {cap pos : Nat} {pre y : Bytes} {bom bom_s : Bom}
+    (hs : Skips (pos == 0) pre 0 bom bom_s) (h : Out res cap (pos + pre.length) bom_s y) : Out res cap pos bom (pre ++ y) := by
+  rcases h with h | h
+  · left; exact h.mono (by simp)
+  · right; exact OutOk_skip hs h
+
+end Jomini.TextReader
+
+namespace Jomini.TextReader
+open Jomini Jomini.TextReader.Spec
+
+/-- the induction hypothesis of the main theorem: calls on readers with fewer undelivered bytes -/
+def IHyp (n : Nat) : Prop :=
+  ∀ (r' : Reader) (pos' : Nat) (bom' : Bom) (d' : Bytes) (fuel' : Nat),
+    r'.src.rest.length < n → Rel r' pos' bom' d' → 2 * r'.src.rest.length + 4 ≤ fuel' →
+    Out (run fuel' .fallback r') r'.cap pos' bom' d'
+
+theorem run_fallback_unfold (f : Nat) (r : Reader) :
+    run (f + 1) .fallback r =
+      match fbLoop (r.position == 0) r.win .top 0 r.bom with
+      | (bom, .tok adv t) =>
+        match advance { r with bom := bom } adv with
+        | some r' => .ok r' (some t)
+        | none => .panic
+      | (bom, .refill st c o) => run f (.refill st c o) { r with bom := bom }
+      | (bom, .bomFill) =>
+        match fillBuf { r with bom := bom } with
+        | (r', .ok 0) => run f .fallback { r' with bom := .notPresent }
+        | (r', .ok _) => run f .fallback r'
+        | (r', .full) => .err r' .full
+        | (r', .io) => .err r' .io := by
+  rw [run]
+  rfl
+
+/-- the scan asked to re-scan the carried bytes `tail` (state `None`): end of input, or the call continues
+on the carried bytes plus what the next read delivers. -/
+theorem core_rescan {r : Reader} {pos : Nat} {bom bom_s : Bom} {d pre tail : Bytes} {off f : Nat}
+    (IH : IHyp r.src.rest.length)
+    (hrel : Rel r pos bom d) (hwin : r.win = pre ++ tail) (hs : Skips (pos == 0) pre 0 bom bom_s)
+    (hscan : fbLoop (pos == 0) (pre ++ tail) .top 0 bom = (bom_s, .refill .none tail.length off))
+    (hfuel : r.src.rest ≠ [] → 2 * r.src.rest.length + 4 ≤ f + 2) :
+    Out (run (f + 2) .fallback r) r.cap pos bom d := by
+  have hd : d = pre ++ (tail ++ r.src.rest) := by rw [← hrel.data, hwin]; simp
+  have hrelb : Rel { r with bom := bom_s } pos bom_s d := hrel.setBom bom_s
+  obtain ⟨r0, hadv, hrel0, hwin0, hsrc0, hcap0⟩ := hrelb.advance pre.length (by simp [hwin])
+  have hsrc0 : r0.src = r.src := hsrc0
+  have hcap0 : r0.cap = r.cap := hcap0
+  have hscan' : fbLoop (pos == 0) r.win .top 0 bom = (bom_s, .refill .none tail.length off) := by rw [hwin]; exact hscan
+  have hwin0' : r0.win = tail := by rw [hwin0]; simp [hwin]
+  have e : ({ r with bom := bom_s } : Reader).win.length - tail.length = pre.length := by simp [hwin]
+  have hgt : ¬ tail.length > ({ r with bom := bom_s } : Reader).win.length := by simp [hwin]
+  have hdd : d.drop pre.length = tail ++ r.src.rest := by rw [hd]; simp
+  rw [hdd] at hrel0
+  have hstep : run (f + 2) .fallback r = 
+      match fillBuf r0 with
+      | (r1, .ok 0) =>
+          if tail.length == 0 then .ok r1 none
+          else
+            match r1.win with
+            | [] => .ub
+            | c :: _ =>
+              if c == 35 then
+                match advance r1 tail.length with
+                | some r2 => .ok r2 none
+                | none => .panic
+              else .err r1 .eof
+      | (r1, .ok _) => run f .fallback r1
+      | (r1, .full) => .err r1 .full
+      | (r1, .io) => .err r1 .io := by
+    rw [run_fallback_unfold, hrel.pos, hrel.bom, hscan']
+    simp only
+    rw [run]
+    simp only [e, hadv, hgt, if_false]
+    rfl
+  rw [hstep]
+  rcases hrel0.fill with ⟨rio, hfill, hc1, _⟩ | ⟨hfill, hc1, hc2⟩ | ⟨he0, r1, hfill, hrel1, hwin1, hrest1, hcap1, _⟩ | ⟨hne0, r1, k, hfill, hrel1, hk, hwin1, hrest1, hcap1, _⟩
+  · left
+    rw [hfill]
+    exact FullAlt.mk_io rio rfl (by rw [← hcap0]; exact hc1)
+  · left
+    rw [hfill]
+    exact FullAlt.mk_full r0 rfl (by rw [← hcap0]; exact hc1) (by rw [← hcap0]; exact hc2) (by rw [hwin0', hd]; simp; omega)
+  · right
+    have he : r.src.rest = [] := by rw [← hsrc0]; exact he0
+    rw [hfill]
+    simp only
+    have hdw : d = pre ++ tail := by rw [hd, he]; simp
+    unfold OutOk
+    have hspec : specStep (pos == 0) bom d = interp d (bom_s, .refill .none tail.length off) := by
+      unfold specStep; rw [hdw, hscan]
+    rw [hspec]
+    simp only [interp]
+    by_cases ht : tail = []
+    · subst ht
+      simp only [List.length_nil, beq_self_eq_true, if_true]
+      refine ⟨r1, rfl, ?_, by rw [hcap1, hcap0]⟩
+      have : pos + d.length = pos + pre.length := by rw [hdw]; simp
+      rw [this]
+      simpa [he] using hrel1
+    · have hne : (tail.length == 0) = false := by
+        cases tail with | nil => exact absurd rfl ht | cons _ _ => simp
+      simp only [hne, Bool.false_eq_true, if_false]
+      have hdrop : d.drop (d.length - tail.length) = tail := by rw [hdw]; simp
+      rw [hdrop, hwin1, hwin0']
+      cases tail with
+      | nil => exact absurd rfl ht
+      | cons c tl =>
+        simp only
+        by_cases h35 : (c == 35) = true
+        · simp only [h35, if_true]
+          obtain ⟨r2, hadv2, hrel2, _, _, hcap2⟩ := hrel1.advance (c :: tl).length (by rw [hwin1, hwin0']; exact Nat.le_refl _)
+          simp only [hadv2]
+          refine ⟨r2, rfl, ?_, by rw [hcap2, hcap1, hcap0]⟩
+          have e1 : pos + d.length = pos + pre.length + (c :: tl).length := by rw [hdw]; simp; omega
+          have e2 : ((c :: tl) ++ r.src.rest).drop (c :: tl).length = [] := by rw [he]; simp
+          rw [e1, ← e2]; exact hrel2
+        · simp only [h35, Bool.false_eq_true, if_false]
+          refine ⟨r1, rfl, ?_⟩
+          rw [hrel1.pos, hdw]; simp
+  · have he : r.src.rest ≠ [] := by rw [← hsrc0]; exact hne0
+    rw [hfill]
+    simp only
+    rw [hsrc0] at hk hrest1
+    have hl1 : r1.src.rest.length + (k + 1) = r.src.rest.length := by rw [hrest1]; simp; omega
+    have hfuel := hfuel he
+    have := IH r1 (pos + pre.length) bom_s (tail ++ r.src.rest) f (by omega) hrel1 (by omega)
+    rw [hcap1, hcap0] at this
+    rw [hd]
+    exact Out_skip hs this
+
+end Jomini.TextReader
+
+namespace Jomini.TextReader
+open Jomini Jomini.TextReader.Spec
+
+theorem tokenAt_adv_le {c : UInt8} {tl : Bytes} {j adv : Nat} {t : Token} (h : tokenAt c tl j = .tok adv t) :
+    adv ≤ j + 1 + tl.length := by
+  unfold tokenAt at h
+  split at h; · simp at h; omega
+  split at h; · simp at h; omega
+  split at h
+  · unfold quoteTok at h
+    cases hq : quoteScan tl 0 with
+    | more _ _ => rw [hq] at h; simp at h
+    | closed n => rw [hq] at h; simp at h; have := quoteEnd_bounds (quoteScan_closed hq); omega
+  have hunq : ∀ {c : UInt8} {tl : Bytes}, unqTok c tl j = .tok adv t → adv ≤ j + 1 + tl.length := by
+    intro c tl h
+    unfold unqTok at h
+    cases hf : findIdx isBoundary tl 0 with
+    | none => rw [hf] at h; simp at h
+    | some k => rw [hf] at h; simp at h; have := findIdx_some_bounds hf; omega
+  have hop2 : ∀ {p q : Op}, opTok2 p q tl j = .tok adv t → adv ≤ j + 1 + tl.length := by
+    intro p q h; unfold opTok2 at h
+    cases tl with
+    | nil => simp at h
+    | cons d r => simp only at h; split at h <;> simp at h <;> simp <;> omega
+  have hop1 : ∀ {o : Op}, opTok1 o tl j = .tok adv t → adv ≤ j + 1 + tl.length := by
+    intro o h; unfold opTok1 at h
+    cases tl with
+    | nil => simp at h
+    | cons d r => simp only at h; split at h <;> simp at h <;> simp <;> omega
+  split at h
+  · unfold atTok at h
+    cases tl with
+    | nil => simp at h
+    | cons d r =>
+      simp only at h
+      split at h
+      · cases hf : findIdx (· == 93) r 0 with
+        | none => rw [hf] at h; simp at h
+        | some k => rw [hf] at h; simp at h; have := findIdx_some_bounds hf; simp; omega
+      · exact hunq h
+  split at h; · exact hop2 h
+  split at h; · exact hop2 h
+  split at h; · exact hop1 h
+  split at h; · exact hop1 h
+  split at h; · exact hop2 h
+  exact hunq h
+
+/-- the scan stopped at a token byte `c` (window = `pre ++ c :: tl`, `pre` skipped) -/
+theorem core_token {r : Reader} {pos : Nat} {bom bom_s bomR : Bom} {d pre tl : Bytes} {c : UInt8} {f : Nat}
+    (IH : IHyp r.src.rest.length)
+    (hrel : Rel r pos bom d) (hwin : r.win = pre ++ c :: tl) (hs : Skips (pos == 0) pre 0 bom bom_s)
+    (h35 : (c == 35) = false) (hbomR : (c == 0xef) = false → bomR = bom_s)
+    (hscan : ∀ x, fbLoop (pos == 0) (pre ++ (c :: tl ++ x)) .top 0 bom = (bomR, tokenAt c (tl ++ x) pre.length))
+    (hfuel1 : 2 * r.src.rest.length + 3 ≤ f + 2)
+    (hfuel : r.src.rest ≠ [] → 2 * r.src.rest.length + 4 ≤ f + 2) :
+    Out (run (f + 2) .fallback r) r.cap pos bom d := by
+  have hd : d = pre ++ (c :: tl ++ r.src.rest) := by rw [← hrel.data, hwin]; simp
+  have hscanW : fbLoop (pos == 0) r.win .top 0 bom = (bomR, tokenAt c tl pre.length) := by
+    have := hscan []; simp only [List.append_nil] at this; rw [hwin]; exact this
+  have hscanD : fbLoop (pos == 0) d .top 0 bom = (bomR, tokenAt c (tl ++ r.src.rest) pre.length) := by
+    rw [hd]; exact hscan _
+  have hdlen : d.length = pre.length + 1 + tl.length + r.src.rest.length := by rw [hd]; simp; omega
+  cases htok : tokenAt c tl pre.length with
+  | bomFill => exact absurd htok (tokenAt_not_bomFill _ _ _)
+  | tok adv t =>
+    right
+    have hstab := tokenAt_stable r.src.rest htok
+    have hle := tokenAt_adv_le htok
+    unfold OutOk specStep
+    rw [hscanD, hstab]
+    simp only [interp]
+    obtain ⟨r', hadv, hrel', _, _, hcap'⟩ := (hrel.setBom bomR).advance adv (by simp [hwin]; omega)
+    refine ⟨r', ?_, hrel', by omega, hcap'⟩
+    rw [run_fallback_unfold, hrel.pos, hrel.bom, hscanW, htok]
+    simp only [hadv]
+  | refill st carry off =>
+    rcases tokenAt_refill htok with ⟨rfl, hc, hef⟩ | ⟨rfl, rfl, hq⟩ | ⟨rfl, hf, hc, ho, hunq⟩
+    · -- re-scan
+      have hb := hbomR hef; subst hb
+      subst hc
+      have : tl.length + 1 = (c :: tl).length := by simp
+      rw [this] at htok
+      refine core_rescan (off := off) IH hrel hwin hs ?_ hfuel
+      have := hscan []; simp only [List.append_nil] at this
+      rw [this, htok]
+    · -- quoted
+      have hb := hbomR (by decide); subst hb
+      obtain ⟨hnone, hc, _, hoc, hres⟩ := quoteScan_more hq
+      simp only [Nat.zero_add] at hc
+      subst hc
+      simp only [Nat.sub_zero] at hres
+      have hwin' : ({ r with bom := bomR } : Reader).win = (pre ++ [34]) ++ tl := by simp [hwin]
+      have hq := run_quote r.src.rest.length { r with bom := bomR } pos bomR d (pre ++ [34]) tl off (f + 1)
+        (Nat.le_refl _) (hrel.setBom bomR) hwin' hoc hnone hres (by simp; omega)
+      have hrun : run (f + 2) .fallback r = run (f + 1) (.refill .quote tl.length off) { r with bom := bomR } := by
+        rw [run_fallback_unfold, hrel.pos, hrel.bom, hscanW, htok]
+      rw [hrun]
+      rcases hq with hfa | hq
+      · left; exact hfa
+      right
+      unfold OutOk specStep
+      rw [hscanD, tokenAt_quote]
+      unfold quoteTok
+      simp only at hq
+      cases hqs : quoteScan (tl ++ r.src.rest) 0 with
+      | closed n =>
+        have e := quoteScan_closed hqs
+        rw [e] at hq
+        simp only [interp]
+        obtain ⟨r', h1, h2, h3⟩ := hq
+        have hbn := quoteEnd_bounds e
+        refine ⟨r', h1, ?_, by rw [hdlen]; simp at hbn; omega, h3⟩
+        have e1 : pos + (pre.length + 1 + n + 1) = pos + (pre ++ [34]).length + (n + 1) := by simp; omega
+        have e2 : d.drop (pre.length + 1 + n + 1) = (tl ++ r.src.rest).drop (n + 1) := by
+          rw [hd, show pre.length + 1 + n + 1 = pre.length + ((n + 1) + 1) by omega, List.drop_append]
+          simp
+        rw [e1, e2]; exact h2
+      | more c' o' =>
+        obtain ⟨e, hc', _⟩ := quoteScan_more hqs
+        rw [e] at hq
+        simp only [interp]
+        obtain ⟨r', h1, h2⟩ := hq
+        refine ⟨r', h1, ?_⟩
+        rw [h2, hc', hdlen]; simp; omega
+    · -- unquoted
+      subst hc ho
+      have hq := run_unq r.src.rest.length { r with bom := bomR } pos bomR d pre c tl (f + 1)
+        (Nat.le_refl _) (hrel.setBom bomR) (by simp [hwin]) hf (by simp; omega)
+      have hrun : run (f + 2) .fallback r =
+          run (f + 1) (.refill .unquoted (tl.length + 1) (tl.length + 1)) { r with bom := bomR } := by
+        rw [run_fallback_unfold, hrel.pos, hrel.bom, hscanW, htok]
+      rw [hrun]
+      rcases hq with hfa | hq
+      · left; exact hfa
+      right
+      unfold OutOk specStep
+      rw [hscanD, hunq]
+      unfold unqTok
+      simp only at hq
+      cases hfs : findIdx isBoundary (tl ++ r.src.rest) 0 with
+      | some k =>
+        rw [hfs] at hq
+        simp only [interp]
+        obtain ⟨r', h1, h2, h3⟩ := hq
+        have hbn := findIdx_some_bounds hfs
+        refine ⟨r', h1, ?_, by rw [hdlen]; simp at hbn; omega, h3⟩
+        have e1 : pos + (pre.length + 1 + k) = pos + pre.length + (1 + k) := by omega
+        have e2 : d.drop (pre.length + 1 + k) = (c :: (tl ++ r.src.rest)).drop (1 + k) := by
+          rw [hd, show pre.length + 1 + k = pre.length + (1 + k) by omega, List.drop_append]
+          simp
+        rw [e1, e2]; exact h2
+      | none =>
+        rw [hfs] at hq
+        simp only [interp]
+        obtain ⟨r', h1, h2, h3⟩ := hq
+        have e0 : d.drop (d.length - ((tl ++ r.src.rest).length + 1)) = c :: (tl ++ r.src.rest) := by
+          rw [hdlen, hd]
+          have : pre.length + 1 + tl.length + r.src.rest.length - ((tl ++ r.src.rest).length + 1) = pre.length := by
+            simp; omega
+          rw [this]; simp
+        rw [e0]
+        refine ⟨r', h1, ?_, Nat.le_refl _, h3⟩
+        have e1 : pos + d.length = pos + pre.length + (tl.length + 1 + r.src.rest.length) := by rw [hdlen]; omega
+        rw [e1, List.drop_length]; exact h2
+
+end Jomini.TextReader
+
+namespace Jomini.TextReader
+open Jomini Jomini.TextReader.Spec
+
+/-- **one call of `next_opt_fallback`, any schedule, any buffer capacity**: whatever the window currently holds and
+however the undelivered bytes arrive, the call either ends in `BufferFull` (the window already filled the buffer), or it
+returns what the reference step prescribes for the whole remaining input (same token, same clean end, same `Eof`), and
+leaves the reader related to the remaining input. -/
+theorem run_fallback_spec : ∀ (n : Nat) (r : Reader) (pos : Nat) (bom : Bom) (d : Bytes) (fuel : Nat),
+    r.src.rest.length = n → Rel r pos bom d → 2 * r.src.rest.length + 4 ≤ fuel →
+    Out (run fuel .fallback r) r.cap pos bom d := by
+  intro n
+  induction n using Nat.strongRecOn with
+  | _ n ih =>
+    intro r pos bom d fuel hn hrel hfuel
+    have IH : IHyp r.src.rest.length := by
+      intro r' pos' bom' d' fuel' hlt hrel' hf'
+      exact ih _ (by omega) r' pos' bom' d' fuel' rfl hrel' hf'
+    obtain ⟨f, rfl⟩ : ∃ f, fuel = f + 2 := ⟨fuel - 2, by omega⟩
+    obtain ⟨pre, tail, bom_s, hw, hs, ht⟩ := decompose (pos == 0) r.win.length r.win 0 bom (Nat.le_refl _)
+    simp only [Nat.zero_add] at ht
+    rcases fbLoop_tail ht with ⟨rfl, h1⟩ | ⟨a, rfl, h1⟩ | ⟨c, tl, bomR, rfl, h35, hb, h1⟩ | ⟨tl, rfl, hlt, hbc, h1⟩
+    · refine core_rescan (off := 0) IH hrel hw hs ?_ (fun _ => hfuel)
+      rw [hs.fbLoop]; simpa using h1
+    · refine core_rescan (off := 0) IH hrel hw hs ?_ (fun _ => hfuel)
+      rw [hs.fbLoop]; simpa using h1
+    · refine core_token IH hrel hw hs h35 hb ?_ (by omega) (fun _ => hfuel)
+      intro x
+      rw [hs.fbLoop]; simpa using h1 x
+    · -- the BOM arm asks for more bytes
+      obtain ⟨_, hbu, hj, hp⟩ := hbc
+      have hpre : pre = [] := List.eq_nil_of_length_eq_zero hj
+      subst hpre
+      have hbs := hs.nil_eq
+      subst hbs hbu
+      simp only [List.nil_append] at hw
+      have hscanW : fbLoop (pos == 0) r.win .top 0 .unknown = (.unknown, .bomFill) := by rw [hw]; exact h1
+      have heta : ({ r with bom := Bom.unknown } : Reader) = r := by
+        have hb := hrel.bom
+        cases r with
+        | mk cap win consumed prior src bom => simp only at hb; subst hb; rfl
+      have hstep : run (f + 2) .fallback r =
+          match fillBuf r with
+          | (r', .ok 0) => run (f + 1) .fallback { r' with bom := .notPresent }
+          | (r', .ok _) => run (f + 1) .fallback r'
+          | (r', .full) => .err r' .full
+          | (r', .io) => .err r' .io := by
+        rw [run_fallback_unfold, hrel.pos, hrel.bom, hscanW]
+        simp only [heta]
+      rw [hstep]
+      rcases hrel.fill with ⟨rio, hfill, hc1, _⟩ | ⟨hfill, hc1, hc2⟩ | ⟨he, r1, hfill, hrel1, hwin1, hrest1, hcap1, _⟩ | ⟨he, r1, k, hfill, hrel1, hk, hwin1, hrest1, hcap1, _⟩
+      · left
+        rw [hfill]
+        exact FullAlt.mk_io rio rfl hc1
+      · left
+        rw [hfill]
+        exact FullAlt.mk_full r rfl hc1 hc2 hrel.win_le
+      · rw [hfill]
+        simp only
+        obtain ⟨f', rfl⟩ : ∃ f', f = f' + 1 := ⟨f - 1, by omega⟩
+        have hrelN : Rel { r1 with bom := .notPresent } pos .notPresent d := hrel1.setBom .notPresent
+        have hdw : d = 0xef :: tl := by rw [← hrel.data, he, hw]; simp
+        have IH0 : IHyp ({ r1 with bom := Bom.notPresent } : Reader).src.rest.length := by
+          intro r' _ _ _ _ hlt; simp [hrest1] at hlt
+        have hnbc : ¬BomCheck (pos == 0) 0xef 0 .notPresent := by simp [BomCheck]
+        have hout := core_token (r := { r1 with bom := .notPresent }) (pre := []) (c := 0xef) (tl := tl)
+          (bom_s := .notPresent) (bomR := .notPresent) (f := f') IH0 hrelN (by simp [hwin1, hw]) (.nil _ _)
+          (by decide) (by intro h; simp at h)
+          (by intro x; simpa [bomAfter] using fbLoop_token (r := tl ++ x) (by decide) (by decide) hnbc)
+          (by simp [hrest1]; omega) (by intro h; simp [hrest1] at h)
+        have hcapN : ({ r1 with bom := Bom.notPresent } : Reader).cap = r.cap := hcap1
+        have hf2 : f' + 1 + 1 = f' + 2 := rfl
+        rw [hf2]
+        generalize run (f' + 2) .fallback { r1 with bom := Bom.notPresent } = res at hout ⊢
+        rw [hcapN] at hout
+        -- with fewer than three bytes in all, the reference step is the one with the BOM ruled out
+        have hspec : specStep (pos == 0) .unknown d = specStep (pos == 0) .notPresent d := by
+          have hfN := fbLoop_token (pos0 := (pos == 0)) (r := tl) (j := 0) (by decide) (by decide) hnbc
+          simp only [List.length_nil] at h1
+          unfold specStep
+          rw [hdw, h1, hfN]
+          simp only
+          cases htk : tokenAt 0xef tl 0 with
+          | bomFill => exact absurd htk (tokenAt_not_bomFill _ _ _)
+          | tok _ _ => rfl
+          | refill _ _ _ => rfl
+        rcases hout with hfa | hok
+        · left; exact hfa
+        · right; unfold OutOk at hok ⊢; rw [hspec]; exact hok
+      · rw [hfill]
+        simp only
+        have hl1 : r1.src.rest.length + (k + 1) = r.src.rest.length := by rw [hrest1]; simp; omega
+        have := IH r1 pos .unknown d (f + 1) (by omega) hrel1 (by omega)
+        rw [hcap1] at this
+        exact this
+
+end Jomini.TextReader
+
+namespace Jomini.TextReader
+open Jomini Jomini.TextReader.Spec
+
+/-! ### the whole token stream -/
+
+/-- `lexAll` with the fast path out of play: every call goes straight to `next_opt_fallback`. -/
+def lexFb (fuel : Nat) : Nat → Reader → List Token → Run
+  | 0, r, acc => { toks := acc.reverse, out := .fuel, final := r }
+  | n + 1, r, acc =>
+    match nextOptFallback fuel r with
+    | .ok r' (some t) => lexFb fuel n r' (t :: acc)
+    | .ok r' none => { toks := acc.reverse, out := .end_, final := r' }
+    | .err r' e => { toks := acc.reverse, out := .err e, final := r' }
+    | .panic => { toks := acc.reverse, out := .panic, final := r }
+    | .ub => { toks := acc.reverse, out := .ub, final := r }
+    | .fuel => { toks := acc.reverse, out := .fuel, final := r }
+
+theorem interp_isSome {pos0 : Bool} {d : Bytes} {bom b : Bom} {s : Scan}
+    (h : fbLoop pos0 d .top 0 bom = (b, s)) (hs : s ≠ .bomFill) : (interp d (b, s)).isSome = true := by
+  cases s with
+  | bomFill => exact absurd rfl hs
+  | tok adv t => simp [interp]
+  | refill st carry off =>
+    have hc := fbLoop_refill_carry h
+    cases st with
+    | quote => simp [interp]
+    | unquoted => simp [interp]
+    | none =>
+      simp only [interp]
+      split
+      · simp
+      · rename_i hz
+        have hz : carry ≠ 0 := by simpa using hz
+        cases hdr : d.drop (d.length - carry) with
+        | nil =>
+          have := congrArg List.length hdr
+          simp at this; omega
+        | cons c _ => simp only; split <;> simp
+
+theorem Skips.bom_ne_unknown {pos0 : Bool} {pre : Bytes} {i : Nat} {b0 b1 : Bom} (h : Skips pos0 pre i b0 b1)
+    (hne : b0 ≠ .unknown) : b1 ≠ .unknown := by
+  induction h with
+  | nil => exact hne
+  | blank _ _ ih => exact ih hne
+  | comment _ _ ih => exact ih hne
+  | bom _ _ _ => exact absurd rfl hne
+
+theorem specStep_isSome (pos0 : Bool) (bom : Bom) (d : Bytes) : (specStep pos0 bom d).isSome = true := by
+  unfold specStep
+  generalize hres : fbLoop pos0 d .top 0 bom = res
+  obtain ⟨b, s⟩ := res
+  by_cases hs : s = .bomFill
+  · subst hs
+    simp only
+    generalize hres2 : fbLoop pos0 d .top 0 .notPresent = res2
+    obtain ⟨b2, s2⟩ := res2
+    refine interp_isSome hres2 ?_
+    -- with the BOM ruled out the scan never asks for the BOM refill
+    obtain ⟨p2, t2, bs2, rfl, hs2, ht2⟩ := decompose pos0 d.length d 0 .notPresent (Nat.le_refl _)
+    rw [hs2.fbLoop] at hres2
+    simp only [Nat.zero_add] at ht2 hres2
+    have hbs2 : bs2 ≠ .unknown := hs2.bom_ne_unknown (by simp)
+    rcases fbLoop_tail ht2 with ⟨_, h1⟩ | ⟨a, _, h1⟩ | ⟨c, r, bomR, rfl, _, _, h1⟩ | ⟨r, _, _, hbc, _⟩
+    · rw [h1] at hres2; simp at hres2; rw [← hres2.2]; simp
+    · rw [h1] at hres2; simp at hres2; rw [← hres2.2]; simp
+    · have := h1 []; simp only [List.append_nil] at this; rw [this] at hres2
+      simp at hres2; rw [← hres2.2]; exact tokenAt_not_bomFill _ _ _
+    · exact absurd hbc.2.1 hbs2
+  · have := interp_isSome hres hs
+    cases s with
+    | bomFill => exact absurd rfl hs
+    | tok _ _ => exact this
+    | refill _ _ _ => exact this
+
+theorem Rel.rest_le {r : Reader} {pos : Nat} {bom : Bom} {d : Bytes} (h : Rel r pos bom d) :
+    r.src.rest.length ≤ d.length := by rw [← h.data]; simp
+
+theorem lexFb_toks_prefix (fuel : Nat) : ∀ (n : Nat) (r : Reader) (acc : List Token),
+    acc.reverse <+: (lexFb fuel n r acc).toks := by
+  intro n
+  induction n with
+  | zero => intro r acc; simp [lexFb]
+  | succ n ih =>
+    intro r acc
+    rw [lexFb]
+    split
+    · rename_i r' t _
+      have := ih r' (t :: acc)
+      simp only [List.reverse_cons] at this
+      exact List.IsPrefix.trans (List.prefix_append _ _) this
+    all_goals simp
+
+/-- how a run stopped early: `BufferFull` or an I/O error -/
+def StopErr (o : Outcome) : Prop := o = .err .full ∨ o = .err .io
+
+/-- the streaming reader `r1` against a slice reader `r2` over the same remaining input: same tokens, same terminal
+outcome and final position — or the streaming run ends in `BufferFull` / an I/O error having produced a prefix of the
+slice reader's tokens. -/
+theorem lexFb_vs_slice (n : Nat) : ∀ (r1 r2 : Reader) (pos : Nat) (bom : Bom) (d : Bytes) (f1 f2 : Nat) (acc : List Token),
+    Rel r1 pos bom d → Rel r2 pos bom d → r2.cap = 0 → 2 * d.length + 4 ≤ f1 → 2 * d.length + 4 ≤ f2 →
+    (StopErr (lexFb f1 n r1 acc).out ∧ (lexFb f1 n r1 acc).toks <+: (lexFb f2 n r2 acc).toks ∧
+      ((lexFb f1 n r1 acc).out = .err .full → r1.cap ≤ d.length)) ∨
+    ((lexFb f1 n r1 acc).toks = (lexFb f2 n r2 acc).toks ∧ (lexFb f1 n r1 acc).out = (lexFb f2 n r2 acc).out ∧
+     ((lexFb f1 n r1 acc).out = .end_ →
+      (lexFb f1 n r1 acc).final.position = pos + d.length ∧ (lexFb f2 n r2 acc).final.position = pos + d.length)) := by
+  induction n with
+  | zero => intro r1 r2 pos bom d f1 f2 acc _ _ _ _ _; right; simp [lexFb]
+  | succ n ih =>
+    intro r1 r2 pos bom d f1 f2 acc h1 h2 hz hf1 hf2
+    have o1 := run_fallback_spec _ r1 pos bom d f1 rfl h1 (by have := h1.rest_le; omega)
+    have o2 := run_fallback_spec _ r2 pos bom d f2 rfl h2 (by have := h2.rest_le; omega)
+    -- the slice reader never stops early
+    have o2 : OutOk (run f2 .fallback r2) r2.cap pos bom d := by
+      rcases o2 with ⟨hne, _⟩ | h
+      · exact absurd hz hne
+      · exact h
+    rcases o1 with ⟨hne, r', ⟨hfull, hle, hwd⟩ | hio⟩ | o1
+    · left
+      have hl : (lexFb f1 (n + 1) r1 acc).toks = acc.reverse ∧ (lexFb f1 (n + 1) r1 acc).out = .err .full := by
+        simp [lexFb, nextOptFallback, hfull]
+      refine ⟨Or.inl hl.2, ?_, fun _ => by omega⟩
+      rw [hl.1]; exact lexFb_toks_prefix _ _ _ _
+    · left
+      have hl : (lexFb f1 (n + 1) r1 acc).toks = acc.reverse ∧ (lexFb f1 (n + 1) r1 acc).out = .err .io := by
+        simp [lexFb, nextOptFallback, hio]
+      refine ⟨Or.inr hl.2, ?_, fun h => by rw [hl.2] at h; simp at h⟩
+      rw [hl.1]; exact lexFb_toks_prefix _ _ _ _
+    unfold OutOk at o1 o2
+    have hsome := specStep_isSome (pos == 0) bom d
+    cases hsp : specStep (pos == 0) bom d with
+    | none => rw [hsp] at hsome; simp at hsome
+    | some st =>
+      rw [hsp] at o1 o2
+      cases st with
+      | tok adv t b' =>
+        obtain ⟨r1', e1, hr1, hle, hc1⟩ := o1
+        obtain ⟨r2', e2, hr2, _, hc2⟩ := o2
+        simp only [lexFb, nextOptFallback, e1, e2]
+        have hl : (d.drop adv).length ≤ d.length := by simp
+        have := ih r1' r2' (pos + adv) b' (d.drop adv) f1 f2 (t :: acc) hr1 hr2 (by rw [hc2]; exact hz) (by omega) (by omega)
+        rcases this with ⟨ha, hb, hc⟩ | this
+        · left; exact ⟨ha, hb, fun h => by have := hc h; rw [← hc1]; omega⟩
+        · right
+          refine ⟨this.1, this.2.1, ?_⟩
+          intro he
+          have h3 := this.2.2 he
+          have e : pos + adv + (d.drop adv).length = pos + d.length := by simp; omega
+          rw [← e]; exact h3
+      | end_ b' =>
+        obtain ⟨r1', e1, hr1, _⟩ := o1
+        obtain ⟨r2', e2, hr2, _⟩ := o2
+        right
+        simp only [lexFb, nextOptFallback, e1, e2]
+        exact ⟨by simp, by simp, fun _ => ⟨hr1.pos, hr2.pos⟩⟩
+      | eof a b' =>
+        obtain ⟨r1', e1, _⟩ := o1
+        obtain ⟨r2', e2, _⟩ := o2
+        right
+        simp only [lexFb, nextOptFallback, e1, e2]
+        exact ⟨by simp, by simp, fun h => by simp at h⟩
+
+end Jomini.TextReader
